@@ -4,6 +4,7 @@ package main
 
 import (
 	"fmt"
+	"go/constant"
 	"sort"
 	"go/token"
 	"go/types"
@@ -564,6 +565,9 @@ func (fc *fctx) convert(x *ssa.Convert) {
 		u.decl("bytes2str_len", "(assert (forall ((m (Array Int Int)) (s Slice)) (! (= (str.len (bytes2str m s)) (sl_len s)) :pattern ((bytes2str m s)))))")
 		res := mkSlice(x.Type(), a, "0", "(str.len "+v.E()+")", "(str.len "+v.E()+")")
 		tr.assume(eq("(bytes2str "+tr.cur.get(u, "MInt$elem")+" "+res.E()+")", v.E()))
+		if c, ok := x.X.(*ssa.Const); ok && c.Value != nil && c.Value.Kind() == constant.String {
+			tr.jsonLiteralFacts(res, constant.StringVal(c.Value))
+		}
 		fc.setVal(x, res)
 	case from == "Slice" && to == "Slice":
 		fc.vals[x] = []*Val{fc.retype(v, x.Type())}
